@@ -90,6 +90,8 @@ def gen_cases(tier, seed):
 
     def add(fl, cmp, keys, probes=None, steps=False):
         keys = [str(k) for k in keys]
+        if fl == "chain" and rnd.random() < 0.3:
+            fl = "chainb"
         if probes is None:
             if cmp == "wide" and keys:
                 ks = set(int(k) for k in keys)
@@ -178,7 +180,10 @@ def case_line(c, for_model=False, ranks=None):
         cmp2 = "diff"                  # the model's difference comparator is over Z: no width
     else:
         cmp2 = cmp
-    return " ".join([fl, cmp2] + (["steps"] if steps else []) + keys + (["?"] + probes if probes else []))
+    # flavour "chainb": the intrusive flavour with nodes that arrive coloured black (a node reused after it left another tree, or living
+    # in zero-filled storage); for the model it is the plain intrusive flavour: a newly linked leaf is red whatever it was before
+    extra = ["preblack"] if (fl == "chainb" and not for_model) else []
+    return " ".join(["chain" if fl == "chainb" else fl, cmp2] + (["steps"] if steps else []) + extra + keys + (["?"] + probes if probes else []))
 
 
 def expected(c, ranks=None):
